@@ -98,7 +98,7 @@ func VerifC07() {
 	if verifFlag("ext") {
 		exts = []string{".x"}
 	}
-	route := verifChoose("route", 0, 6)
+	route := verifChoose("route", 0, 8)
 	// an encode option on a mkdir call selects the no-op grower for Output; it must not switch validation off
 	withEnc := route != 4 && verifFlag("encodeOption")
 	target := c07Target()
@@ -132,7 +132,7 @@ func VerifC07() {
 			opts = append(opts, WithMassive(context.Background()))
 		}
 		err = MkdirFromMarkdown(&verifReader{lines: mdRows()}, opts...)
-	case 2, 3:
+	case 2, 3, 7, 8:
 		root := NewRoot(names[0])
 		cur := root
 		for i := 1; i < nn; i++ {
@@ -145,8 +145,11 @@ func VerifC07() {
 		if withEnc {
 			opts = append(opts, WithEncodeYAML())
 		}
-		if route == 3 {
+		if route == 3 || route == 8 {
 			opts = append(opts, WithDryRun())
+		}
+		if route >= 7 {
+			opts = append(opts, WithMassive(context.Background()))
 		}
 		err = MkdirFromRoot(root, opts...)
 	case 4: // the CLI's dry-run route
@@ -156,7 +159,7 @@ func VerifC07() {
 	for _, p := range calls {
 		verifAssert(c07Within(target, p), "C07.inside")
 	}
-	if route == 1 || route == 3 || route == 4 || route == 6 {
+	if route == 1 || route == 3 || route == 4 || route == 6 || route == 8 {
 		verifAssert(len(calls) == 0, "C07.dryrun.nothing")
 	}
 	if !allValid {
